@@ -304,7 +304,16 @@ func run(rt *rapid.T, magnet bool, npieces int, caps []pump.Caps, steps []step, 
 				if !t.InfoComplete() || total == 0 {
 					continue
 				}
-				e = peer.PeerRequest{Chunks: []uint32{uint32(s.A % total), uint32((s.A + 1) % total)}}
+				// two blocks, or more than the pipeline takes at once (the rest waits in the peer's queue)
+				n := []int{2, 2, 12, 300}[s.A/7%4]
+				var chunks []uint32
+				for k := 0; k < min(n, total); k++ {
+					chunks = append(chunks, uint32((s.A+k)%total))
+				}
+				e = peer.PeerRequest{Chunks: chunks}
+				if len(chunks) > 2 {
+					labels["more-blocks-asked-than-the-pipeline-takes"] = true
+				}
 			case "cancel":
 				if !t.InfoComplete() {
 					continue
@@ -347,6 +356,24 @@ func run(rt *rapid.T, magnet bool, npieces int, caps []pump.Caps, steps []step, 
 			if p := w.Drain(); p != "" {
 				return p + describe(), labels, hist
 			}
+		case "peer-tick":
+			// the periodic branches of the peer's own loop: what the messages
+			// handled so far give rise to later
+			if s.Cmd == "upload" && len(peer.VerifUploadQueue(pp.P)) > 0 {
+				labels["upload-tick-with-queued-requests"] = true
+			}
+			runtime.ReadMemStats(&ms0)
+			if pv := pp.PeerTick(s.Cmd); pv != "" {
+				return pv + describe(), labels, hist
+			}
+			if p := w.Drain(); p != "" {
+				return p + describe(), labels, hist
+			}
+			runtime.ReadMemStats(&ms1)
+			if alloc, budget := ms1.TotalAlloc-ms0.TotalAlloc, uint64(8*MiB+16*npieces); alloc > budget {
+				return fmt.Sprintf("the peer's %s tick allocated %d bytes, more than %d: memory proportional to a numeric field of an earlier message", s.Cmd, alloc, budget) + describe(), labels, hist
+			}
+			labels["peer-tick:"+s.Cmd] = true
 		case "consumer":
 			if !t.InfoComplete() || npieces == 0 {
 				continue
@@ -395,7 +422,12 @@ func TestC05Messages(t *testing.T) {
 			case k == 7:
 				steps = append(steps, step{Kind: "cmd", P: rapid.IntRange(0, 5).Draw(rt, "p"), Cmd: rapid.SampledFrom([]string{"request", "cancel", "have", "unchoke", "interested"}).Draw(rt, "cmd"), A: rapid.IntRange(0, 100000).Draw(rt, "a")})
 			case k == 8:
-				steps = append(steps, step{Kind: rapid.SampledFrom([]string{"tick", "consumer", "consumer"}).Draw(rt, "misc"), A: rapid.IntRange(0, 100000).Draw(rt, "a")})
+				st := step{Kind: rapid.SampledFrom([]string{"tick", "consumer", "consumer", "peer-tick", "peer-tick"}).Draw(rt, "misc"), A: rapid.IntRange(0, 100000).Draw(rt, "a")}
+				if st.Kind == "peer-tick" {
+					st.P = rapid.IntRange(0, 5).Draw(rt, "p")
+					st.Cmd = rapid.SampledFrom([]string{"upload", "upload", "expire", "pex"}).Draw(rt, "ticker")
+				}
+				steps = append(steps, st)
 			default:
 				steps = append(steps, step{Kind: "disconnect", P: rapid.IntRange(0, 5).Draw(rt, "p")})
 			}
@@ -411,9 +443,23 @@ func TestC05Messages(t *testing.T) {
 				bf[i/8] |= 0x80 >> (i % 8)
 			}
 			pre := []step{{Kind: "msg", P: 0, M: protocol.Bitfield{Bitfield: bf}, Desc: "Bitfield{all}", Wire: 5 + len(bf)},
-				{Kind: "msg", P: 0, M: protocol.Unchoke{}, Desc: "Unchoke", Wire: 5}, {Kind: "cmd", P: 0, Cmd: "request", A: 0}}
+				{Kind: "msg", P: 0, M: protocol.Unchoke{}, Desc: "Unchoke", Wire: 5}, {Kind: "cmd", P: 0, Cmd: "request", A: rapid.SampledFrom([]int{0, 14, 21, 21}).Draw(rt, "prefixRequest")}}
 			steps = append(pre, steps...)
 			classes["with-outstanding-requests"] = true
+		}
+		if rapid.IntRange(0, 2).Draw(rt, "unchokedByUs") == 0 {
+			// another useful prefix: the remote is interested and we unchoke it, so its requests are queued for upload
+			pre := []step{{Kind: "msg", P: 0, M: protocol.Interested{}, Desc: "Interested", Wire: 5}, {Kind: "cmd", P: 0, Cmd: "unchoke", A: 0}}
+			for i, n := 0, rapid.IntRange(0, 3).Draw(rt, "uploadRequests"); i < n; i++ {
+				rq := protocol.Request{Index: uint32(rapid.IntRange(0, max(npieces, 1)).Draw(rt, "ri")), Begin: rapid.SampledFrom([]uint32{0, 16384, 1, 1 << 31}).Draw(rt, "rb"),
+					Length: rapid.SampledFrom([]uint32{0, 1, 16384, 16385, 1 << 17, 1 << 24, 1 << 29, 1 << 31, 1<<32 - 1}).Draw(rt, "rl")}
+				pre = append(pre, step{Kind: "msg", P: 0, M: rq, Desc: describeMsg(rq), Wire: 17})
+				if rapid.Bool().Draw(rt, "tickNow") {
+					pre = append(pre, step{Kind: "peer-tick", P: 0, Cmd: "upload"})
+				}
+			}
+			steps = append(pre, steps...)
+			classes["unchoked-by-us"] = true
 		}
 		fail, labels, _ := run(rt, magnet, npieces, caps, steps, plK)
 		if fail != "" {
